@@ -16,12 +16,15 @@ LEVEL = "exploration"
 RULE = ("a case is (scheme, configuration, JSON database with UTF-8 keywords incl. non-ASCII and mixed-case hex identifiers, order "
         "of the two independent workflow prefixes, a 'discard the client object and rebuild it from disk' bit for every step "
         "boundary, a keyword sequence of present/absent/repeated keywords, an optional server restart after the upload or "
-        "between two searches). The real client Service talks to the real server handler over a loopback websocket. Oracle: the "
+        "between two searches; per search the way the answer is obtained: wait=True callback or a once-handler for RESULT messages followed by "
+        "a non-blocking search; restarts are clean, hard (every server module back to its import-time state) or, for one case in eight, the "
+        "server is a REAL PROCESS that is SIGKILLed right after the upload acknowledgement / between two searches while the client's "
+        "connection is still open, and replaced by a new process on the same directory). The real client Service talks to the real server handler over a loopback websocket. Oracle: the "
         "bytes handed to the search callback deserialize (scheme's SSEResult) to DB.get(w, empty); hex/int views reproduce the "
         "JSON identifiers; every workflow step whose prerequisites hold completes. Non-trivial = at least one re-creation "
         "between steps or a restart, and at least one absent keyword; distinct = distinct (scheme, config, database, plan).")
 ASSUMPTIONS = ["the server's 1 s cleanup pause is a gate owned by the driver: it elapses either before the re-created client connects or only after that client has completed its handshake (reconnect inside the pause)",
-               "a 'server restart' in this check is: stop listening, drop all in-memory state (fresh ServicesManager), listen again",
+               "a clean 'server restart' in this check is: stop listening, drop all in-memory state (fresh ServicesManager), listen again; the killed-process variant loses everything the server process had not written",
                "silence for 30 s on a loopback connection that is still open is counted as inconclusive, not as a violation"]
 
 PLANS = [
@@ -76,8 +79,28 @@ async def workflow(case):
     from vlib import sched
     gate = sched.Gate()
     rig.set_sleep(gate.sleep)  # the server's cleanup pause elapses when this driver says so
-    srv = await rig.Server().start()
+    proc_mode = case.get("server") == "process"
+    srv = srvp = work = None
+    if proc_mode:
+        # the server is a REAL process (own interpreter, own hash seed) that is killed with SIGKILL -- while the client's
+        # connection is still open and before any cleanup has run -- and replaced by a new process on the same directory
+        import tempfile
+        from props import c13 as P
+        work = tempfile.mkdtemp(prefix="ssepy-c09srv-")
+        srvp = P.start_server(ns.home, work, "srv0")
+        ns.global_config.ClientConfig.SERVER_URI = srvp.uri
+    else:
+        srv = await rig.Server().start()
     svc = None
+    kills = {"n": 0}
+
+    async def kill_server():
+        nonlocal srvp
+        from props import c13 as P
+        srvp.kill()
+        kills["n"] += 1
+        srvp = P.start_server(ns.home, work, "srv%d" % kills["n"])
+        ns.global_config.ClientConfig.SERVER_URI = srvp.uri
     recreate = list(case["recreate"])
     early = list(case.get("early", []))
     pending = {"n": 0}
@@ -98,8 +121,12 @@ async def workflow(case):
         nonlocal svc
         if svc is not None:
             had_conn = svc.websocket is not None
-            await svc.close_service()
-            if had_conn:
+            try:
+                await asyncio.wait_for(svc.close_service(), 30)
+            except Exception:
+                if not proc_mode:   # after a server kill the client's connection is dead: closing it may fail, nothing depends on it
+                    raise
+            if had_conn and not proc_mode:
                 pending["n"] += 1
             svc = None
 
@@ -146,21 +173,43 @@ async def workflow(case):
             except Exception as e:
                 raise Violation("%s: workflow step %s failed although its prerequisites hold: %s: %s" % (scheme, step, type(e).__name__, e),
                                 "%s:%s:%s" % (scheme, step, type(e).__name__))
+            if proc_mode and step == "upload_edb" and case.get("kill_after") == "upload_edb":
+                await kill_server()   # right after the upload was acknowledged, the uploading connection still open
+                recreate[:1] = [True]
         restarts = 0
         for qi, (w_str, kind) in enumerate(case["queries"]):
             force = False
             if case.get("restart_at") is not None and qi == case["restart_at"]:
-                await close_current()
-                await settle()
-                await srv.restart()
+                if proc_mode:
+                    await kill_server()   # whatever connection the client holds is still open at this moment
+                else:
+                    await close_current()
+                    await settle()
+                    await srv.restart(hard=bool(case.get("hard_restart")))
                 restarts += 1
                 force = True
             s = await fresh(force)
             w = w_str.encode("utf-8")
             got = []
+            style = (case.get("styles") or ["wait"])[qi % len(case.get("styles") or ["wait"])]
             try:
-                await _race_closed(s, s.handle_keyword_search(w, wait=True, wait_callback_func=lambda f: got.append(f.result())),
-                                   "search", scheme)
+                if style == "echo":
+                    # the other documented way of getting the answer: a once-handler for RESULT messages, then a non-blocking search
+                    from frontend.common.constants import MsgType
+                    s.register_echo_handler_once(MsgType.RESULT, lambda content: got.append(content))
+                    await s.handle_keyword_search(w, wait=False)
+                    t0 = asyncio.get_running_loop().time()
+                    while not got:
+                        await asyncio.sleep(0.002)
+                        if s.websocket is not None and s.websocket.closed:
+                            raise Violation("%s: the server closed the connection during a search (close code %s)" % (
+                                scheme, getattr(s.websocket, "close_code", None)), "%s:search:connection_closed" % scheme)
+                        if asyncio.get_running_loop().time() - t0 > 30:
+                            raise HarnessError("no result within 30 s on an open loopback connection (inconclusive)")
+                    await asyncio.sleep(0.01)   # a second delivery to the same once-handler would show up here
+                else:
+                    await _race_closed(s, s.handle_keyword_search(w, wait=True, wait_callback_func=lambda f: got.append(f.result())),
+                                       "search", scheme)
             except (Violation, HarnessError):
                 raise
             except Exception as e:
@@ -196,7 +245,12 @@ async def workflow(case):
                 await asyncio.sleep(0.005)
         rel = asyncio.ensure_future(auto_release())
         try:
-            await asyncio.wait_for(srv.stop(), 30)
+            if srv is not None:
+                await asyncio.wait_for(srv.stop(), 30)
+            if srvp is not None:
+                srvp.kill()
+                import shutil
+                shutil.rmtree(work, ignore_errors=True)
         finally:
             stopping["done"] = True
             with contextlib.suppress(BaseException):
@@ -350,8 +404,16 @@ def st_case(draw, scheme):
     recreate = draw(st.lists(st.booleans(), min_size=len(plan) + len(queries), max_size=len(plan) + len(queries)))
     early = draw(st.lists(st.booleans(), min_size=len(recreate), max_size=len(recreate)))
     restart_at = draw(st.one_of(st.none(), st.integers(0, len(queries) - 1)))
-    return {"scheme": scheme, "cfg": cfg, "jsondb": jsondb, "plan": plan, "queries": queries, "recreate": recreate, "early": early,
-            "restart_at": restart_at, "seed": draw(st.integers(0, 2 ** 32))}
+    case = {"scheme": scheme, "cfg": cfg, "jsondb": jsondb, "plan": plan, "queries": queries, "recreate": recreate, "early": early,
+            "restart_at": restart_at, "seed": draw(st.integers(0, 2 ** 32)),
+            "styles": draw(st.lists(st.sampled_from(["wait", "wait", "echo"]), min_size=1, max_size=5)),
+            "hard_restart": draw(st.booleans())}
+    if draw(st.integers(0, 7)) == 0:
+        case["server"] = "process"
+        case["kill_after"] = draw(st.sampled_from(["upload_edb", None]))
+        if case["kill_after"] is None and restart_at is None:
+            case["restart_at"] = 0
+    return case
 
 
 def body(case, res):
@@ -366,8 +428,14 @@ def body(case, res):
         cl.append("reconnect_inside_cleanup_pause")
     if any(any(ord(ch) > 127 for ch in k) for k, _ in case["jsondb"]):
         cl.append("non_ascii_keyword")
+    if case.get("server") == "process":
+        cl.append("server_process_killed:" + ("right_after_upload_echo" if case.get("kill_after") else "between_searches"))
+    sty = case.get("styles") or ["wait"]
+    used = {sty[i % len(sty)] for i in range(len(case["queries"]))}
+    if case.get("mode") != "cli":
+        cl.append("result_delivery:" + "+".join(sorted(used)))
     res.count([case["scheme"], case.get("mode"), sorted((k, repr(v)) for k, v in case["cfg"].items()), case["jsondb"], case["plan"], case["queries"],
-               case["recreate"], case["restart_at"]], nt, cl,
+               case["recreate"], case["restart_at"], case.get("styles"), case.get("server"), case.get("kill_after")], nt, cl,
               sample={k: case[k] for k in ("scheme", "jsondb", "plan", "queries", "recreate", "restart_at")})
     run_case(case)
 
